@@ -20,26 +20,26 @@ def _pl_form(rng, exp):
 def _reach_funcs(names):
     hasher, torrent, utils = drive.mod("hasher"), drive.mod("torrent"), drive.mod("utils")
     table = {
-        "Hasher._handle_partial": hasher.Hasher._handle_partial,
-        "Hasher.next_file": hasher.Hasher.next_file,
-        "Hasher.__next__": hasher.Hasher.__next__,
-        "TorrentFile.assemble": torrent.TorrentFile.assemble,
-        "utils._filelist_total": utils._filelist_total,
-        "merkle_root": hasher.merkle_root,
-        "HasherV2.process_file": hasher.HasherV2.process_file,
-        "HasherV2._calculate_root": hasher.HasherV2._calculate_root,
-        "HasherHybrid.process_file": hasher.HasherHybrid.process_file,
-        "HasherHybrid._pad_remaining": hasher.HasherHybrid._pad_remaining,
-        "HasherHybrid._calculate_root": hasher.HasherHybrid._calculate_root,
-        "FileHasher.__next__": hasher.FileHasher.__next__,
-        "FileHasher._pad_remaining": hasher.FileHasher._pad_remaining,
-        "FileHasher._calculate_root": hasher.FileHasher._calculate_root,
-        "TorrentFileV2._traverse": torrent.TorrentFileV2._traverse,
-        "TorrentFileHybrid._traverse": torrent.TorrentFileHybrid._traverse,
-        "TorrentAssembler._traverse": torrent.TorrentAssembler._traverse,
-        "TorrentAssembler.assemble": torrent.TorrentAssembler.assemble,
-        "TorrentFileHybrid.assemble": torrent.TorrentFileHybrid.assemble,
-        "utils.next_power_2": utils.next_power_2,
+        "Hasher._handle_partial": env.Tolerant(hasher).Hasher._handle_partial,
+        "Hasher.next_file": env.Tolerant(hasher).Hasher.next_file,
+        "Hasher.__next__": env.Tolerant(hasher).Hasher.__next__,
+        "TorrentFile.assemble": env.Tolerant(torrent).TorrentFile.assemble,
+        "utils._filelist_total": env.Tolerant(utils)._filelist_total,
+        "merkle_root": env.Tolerant(hasher).merkle_root,
+        "HasherV2.process_file": env.Tolerant(hasher).HasherV2.process_file,
+        "HasherV2._calculate_root": env.Tolerant(hasher).HasherV2._calculate_root,
+        "HasherHybrid.process_file": env.Tolerant(hasher).HasherHybrid.process_file,
+        "HasherHybrid._pad_remaining": env.Tolerant(hasher).HasherHybrid._pad_remaining,
+        "HasherHybrid._calculate_root": env.Tolerant(hasher).HasherHybrid._calculate_root,
+        "FileHasher.__next__": env.Tolerant(hasher).FileHasher.__next__,
+        "FileHasher._pad_remaining": env.Tolerant(hasher).FileHasher._pad_remaining,
+        "FileHasher._calculate_root": env.Tolerant(hasher).FileHasher._calculate_root,
+        "TorrentFileV2._traverse": env.Tolerant(torrent).TorrentFileV2._traverse,
+        "TorrentFileHybrid._traverse": env.Tolerant(torrent).TorrentFileHybrid._traverse,
+        "TorrentAssembler._traverse": env.Tolerant(torrent).TorrentAssembler._traverse,
+        "TorrentAssembler.assemble": env.Tolerant(torrent).TorrentAssembler.assemble,
+        "TorrentFileHybrid.assemble": env.Tolerant(torrent).TorrentFileHybrid.assemble,
+        "utils.next_power_2": env.Tolerant(utils).next_power_2,
     }
     return {k: table[k] for k in names}
 
@@ -398,7 +398,8 @@ class C10:
             "TorrentFileHybrid; written files compared with creation date masked); non-trivial when a file "
             "exercises a BEP 52 padding rule, is empty or exactly one piece; distinct by (kind, pair, size "
             "classes, pl exponent, progress)")
-    required = ("hasher_tuples_compared", "creator_pairs_v2", "creator_pairs_hybrid", "pieces_lists_compared")
+    required = ("hasher_tuples_compared", "creator_pairs_v2", "creator_pairs_hybrid", "pieces_lists_compared",
+                "creator_config_route_compared")
     assumptions = ("agreement only; C02/C03 tie one member of each pair to the specification",)
 
     @staticmethod
@@ -503,6 +504,33 @@ class C10:
                 viol.append(oracles.V("create-raised", route=r, exc=oc.excname(), tb=oc.tb[-1200:]))
             else:
                 raws.append(mask_creation_date(oc.raw))
+        # the command line fed from a configuration file is one more way to reach the same creator
+        o = case["opts"]
+        flat = [str(v) for k in ("announce", "url_list") for v in (o.get(k) or [])] + [str(o.get("comment", "")), str(o.get("source", ""))]
+        if case["pl"] is not None and not any("%" in v or v != v.strip() for v in flat):
+            lines = ["[config]", f"meta-version = {pair[2][-1]}", f"piece-length = {case['pl']}"]
+            for key, name in (("announce", "announce"), ("url_list", "web-seed")):
+                if o.get(key):
+                    lines.append(f"{name} =")
+                    lines += ["    " + u for u in o[key]]
+            if o.get("private"):
+                lines.append("private = true")
+            for key in ("comment", "source"):
+                if o.get(key) is not None:
+                    lines.append(f"{key} = {o[key]}")
+            ini = os.path.join(out, "c.ini")
+            with open(ini, "w", encoding="utf-8") as fd:
+                fd.write("\n".join(lines) + "\n")
+            cout = os.path.join(out, "config.torrent")
+            oc = drive.cli_execute(["create", "--config", "--config-path", ini, "-o", cout, "--prog", str(case["progress"]), root])
+            if not oc.ok:
+                viol.append(oracles.V("create-raised", route="config", exc=oc.excname(), tb=(oc.tb or "")[-1200:]))
+            else:
+                with open(cout, "rb") as fd:
+                    craw = mask_creation_date(fd.read())
+                counters["creator_config_route_compared"] = 1
+                if raws and craw != raws[0]:
+                    viol.append(oracles.V("creator-pair-differs", pair=[pair[0], "cli --config"], len_a=len(raws[0]), len_b=len(craw)))
         if len(raws) == 3:
             counters["creator_pairs_v2" if case["route"] == "v2pair" else "creator_pairs_hybrid"] = 1
             for k in (1, 2):
